@@ -239,6 +239,26 @@ def replay_strategy(inp):
     return worst is not None, "mode %d on %r/%r: %r" % (job["mode"], t, b, worst)
 
 
+def _ladder_routine(job):
+    from ..ladder import pairs
+    for tol in (0.8, 1.4, 2.0, 3.0, 5.0):
+        for target in (4.5, 7.0):
+            for t, b in pairs():
+                d = dict(tr=t[0], tg=t[1], tb=t[2], br=b[0], bg=b[1], bb=b[2], tol=tol, target=target, minc=target)
+                for i in range(job.get("ks", 0)):
+                    d["tol%d" % i] = tol * (i + 1) / job["ks"]
+                yield d
+
+
+def _ladder_strategy(job):
+    from ..ladder import pairs
+    for t, b in pairs():
+        yield dict(tr=t[0], tg=t[1], tb=t[2], br=b[0], bg=b[1], bb=b[2])
+
+
+LADDER = {"bisect": _ladder_routine, "descent": _ladder_routine, "G": _ladder_routine, "strategy": _ladder_strategy,
+          "G-default": _ladder_strategy}
+
 REPLAYS = {"bisect": replay_routine, "descent": replay_routine, "G": replay_routine, "G-default": replay_strategy,
            "strategy": replay_strategy}
 
